@@ -132,7 +132,31 @@ func shapeLogger(l fullLogger, mask int) cache.Logger {
 // quietLogger is a four-level logger that only yields (transfer engine: log content is not judged).
 type quietLogger struct{}
 
-func (quietLogger) Error(context.Context, string, ...interface{})     { zs.Yield("log.error") }
-func (quietLogger) Debug(context.Context, string, ...interface{})     { zs.Yield("log.debug") }
-func (quietLogger) Warn(context.Context, string, ...interface{})      { zs.Yield("log.warn") }
-func (quietLogger) Important(context.Context, string, ...interface{}) { zs.Yield("log.important") }
+func (quietLogger) Error(_ context.Context, _ string, kv ...interface{}) {
+	zs.Yield("log.error")
+	renderLogArgs(kv)
+}
+
+func (quietLogger) Debug(_ context.Context, _ string, kv ...interface{}) {
+	zs.Yield("log.debug")
+	renderLogArgs(kv)
+}
+
+func (quietLogger) Warn(_ context.Context, _ string, kv ...interface{}) {
+	zs.Yield("log.warn")
+	renderLogArgs(kv)
+}
+
+func (quietLogger) Important(_ context.Context, _ string, kv ...interface{}) {
+	zs.Yield("log.important")
+	renderLogArgs(kv)
+}
+
+// renderLogArgs: a logger renders its arguments (fmt, json, ...), i.e. it reads, with plain loads, every field
+// of a struct it is given a pointer to. Only the race detector takes notice (C16); the reads happen after the
+// logger's yield, a real logger is slow.
+func renderLogArgs(kv []interface{}) {
+	for _, a := range kv {
+		zs.ReadAll(a, "logger renders its argument")
+	}
+}
